@@ -19,6 +19,7 @@ import (
 type bbCleanCase struct {
 	Tests  map[string][]Step `json:"tests"`
 	Count  int               `json:"count"`
+	Cpu    string            `json:"test_cpu,omitempty"` // -test.cpu of the run under test (C07 only): "1," runs once, "1,2" twice per count
 	Run    string            `json:"run"`
 	Upd    string            `json:"update_snaps"`
 	Sort   bool              `json:"sort"`
@@ -56,6 +57,9 @@ func genBBClean(t *rapid.T, forSummary bool) bbCleanCase {
 	c.Run = rapid.SampledFrom([]string{"", "", "Test", ".", strings.Join(tops, "|")}).Draw(t, "run")
 	c.Upd = rapid.SampledFrom([]string{"", "clean", "true"}).Draw(t, "upd")
 	c.Sort = rapid.Bool().Draw(t, "sort")
+	if !forSummary && rapid.IntRange(0, 2).Draw(t, "cpu") == 0 {
+		c.Cpu = rapid.SampledFrom([]string{"1,", "2,", ",1", "1,2", "1,1,1"}).Draw(t, "cpulist")
+	}
 	names := allNames(c.Tests)
 	for i := rapid.IntRange(0, 3).Draw(t, "nstale"); i > 0; i-- {
 		c.Stale = append(c.Stale, fmt.Sprintf("%s|%s - %d", rapid.SampledFrom([]string{"default", "shared"}).Draw(t, "stalecfg"), rapid.SampledFrom(names).Draw(t, "stalename"), rapid.IntRange(20, 22).Draw(t, "staleord")))
@@ -138,7 +142,7 @@ func checkC07BB(c bbCleanCase) error {
 	for top, steps := range c.Tests {
 		plain[top] = &Node{Steps: steps}
 	}
-	res, out, err := runProgram(RunOpts{Pkg: ".", Run: c.Run, Count: c.Count, Upd: c.Upd, UpdSet: c.Upd != ""}, Scenario{Tests: plain, Clean: CleanSpec{Call: true, Sort: c.Sort}})
+	res, out, err := runProgram(RunOpts{Pkg: ".", Run: c.Run, Count: c.Count, Cpu: c.Cpu, Upd: c.Upd, UpdSet: c.Upd != ""}, Scenario{Tests: plain, Clean: CleanSpec{Call: true, Sort: c.Sort}})
 	if err != nil {
 		return fmt.Errorf("run: %v (%s)", err, clip(out))
 	}
@@ -197,6 +201,9 @@ func checkC07BB(c bbCleanCase) error {
 
 func classifyBBClean(c bbCleanCase) ([]string, bool) {
 	var cls []string
+	if c.Cpu != "" {
+		cls = append(cls, "test_cpu_list")
+	}
 	if c.Count > 1 {
 		cls = append(cls, "count_gt_1")
 	}
